@@ -198,7 +198,9 @@ func (node *DataMessage) SessionID() int {
 // SystemBytes returns the system bytes of the SECS-II message.
 // If the system bytes was not set, it will return []byte{0, 0, 0, 0}.
 func (node *DataMessage) SystemBytes() []byte {
-	return node.systemBytes
+	result := make([]byte, len(node.systemBytes))
+	copy(result, node.systemBytes)
+	return result
 }
 
 // SetSessionIDAndSystemBytes sets session id and system bytes to the message.
